@@ -52,6 +52,15 @@ fn boundary(mp: &MotionProfile, r: u8) -> i64 {
     }
     hi
 }
+fn debug_boundaries(mp: &MotionProfile) -> Option<(i64, i64, i64)> {
+    let text = format!("{:?}", mp);
+    let field = |name: &str| -> Option<i64> {
+        let at = text.find(&format!("{}: Time(", name))? + name.len() + 7;
+        let rest = &text[at..];
+        rest[..rest.find(')')?].trim().parse::<i64>().ok()
+    };
+    Some((field("t1")?, field("t2")?, field("t3")?))
+}
 pub fn recover(mp: &MotionProfile) -> (i64, i64, i64) {
     (boundary(mp, 2), boundary(mp, 3), boundary(mp, 4))
 }
@@ -105,6 +114,12 @@ pub fn check06(s: &Scenario) -> CheckResult {
     };
     let (t1, t2, t3) = recover(&mp);
     ensure!(0 <= t1 && t1 <= t2 && t2 <= t3, "C06/boundaries-order", "recovered boundaries t1={} t2={} t3={} are not ordered", t1, t2, t3);
+    // the boundaries are private, but the derived Debug output prints them: a second, direct observation (skipped if the
+    // format ever stops naming fields t1, t2, t3). Bisection alone cannot see t2 < t1: the piece t2 bounds just never occurs.
+    let dbg = debug_boundaries(&mp);
+    if let Some((d1, d2, d3)) = dbg {
+        ensure!(0 <= d1 && d1 <= d2 && d2 <= d3, "C06/boundaries-order", "the constructor returned a profile whose boundaries (as printed by its Debug impl) are t1={} t2={} t3={}: not 0 <= t1 <= t2 <= t3; profile {:?}", d1, d2, d3, p);
+    }
     let ek = end_kind(p);
     let end_cmd = Command::from(State::new_raw(p.end[0], p.end[1], p.end[2]));
     ensure!(PositionDerivative::from(end_cmd) == pd(ek), "C06/end-kind", "end command kind {:?} for end state {:?}", end_cmd, p.end);
@@ -177,7 +192,8 @@ pub fn check06(s: &Scenario) -> CheckResult {
         .class_if(all_phases, "all three phases non-empty")
         .class_if(ek == 1, "velocity end command")
         .class_if(ek == 2, "acceleration end command")
-        .class_if(t3 == 0, "zero-length move"))
+        .class_if(t3 == 0, "zero-length move")
+        .class_if(dbg.is_some(), "boundaries also read from the Debug output"))
 }
 
 // ------------------------------------------------------------------------------------------------
@@ -243,7 +259,10 @@ pub fn check07(s: &Scenario) -> CheckResult {
         ensure!(rp.admits(pos, 4.0, 0.0), "C07/position", "t={} (boundaries {},{},{}): position {:e}, integral of the reference velocity {:e} (allowed deviation {:e}); profile {:?}", t, t1, t2, t3, pos, rp.v, 4.0 * rp.e, p);
         // the boundaries are f32 seconds truncated to ns, so the ramps may be off by eps*T3 in time, i.e.
         // eps*|A|*T3 in speed: "a rounding tolerance proportional to f32 epsilon times the magnitudes involved"
-        let speed_tol = 4.0 * rv.e + 16.0 * U * (vmax + (a_s.abs() as f64) * (t3 as f64 / 1e9));
+        // ... and each of the three boundaries is additionally truncated to a whole nanosecond (the crate's time
+        // resolution, C18's "1 ns of truncation"), which shifts a ramp by up to |A|*1 ns in speed per boundary; for
+        // moves of well under a millisecond that term dominates the f32 one (same term as in the arrival clause below)
+        let speed_tol = 4.0 * rv.e + (a_s.abs() as f64) * 3e-9 + 16.0 * U * (vmax + (a_s.abs() as f64) * (t3 as f64 / 1e9));
         ensure!((vel.abs() as f64) <= vmax + speed_tol, "C07/speed-limit", "t={}: |velocity| {:e} exceeds the largest of max_vel and the start/end speeds {:e} by more than the rounding tolerance {:e}", t, vel.abs(), vmax, speed_tol);
         if t == 0 {
             ensure!(same_f32(vel, p.start[1]) && same_f32(pos, p.start[0]), "C07/start", "at t=0 velocity {:e} position {:e}, start state {:?}", vel, pos, p.start);
@@ -370,7 +389,7 @@ impl Property for C06 {
         scenario_strategy()
     }
     fn cases(tier: Tier) -> u32 {
-        tier.pick(30_000, 200_000)
+        tier.pick(100_000, 400_000)
     }
     fn exhaustive(_tier: Tier, sink: &mut dyn FnMut(Scenario)) -> Vec<String> {
         for p in fixed_profiles() {
@@ -394,7 +413,7 @@ impl Property for C07 {
         scenario_strategy()
     }
     fn cases(tier: Tier) -> u32 {
-        tier.pick(30_000, 200_000)
+        tier.pick(100_000, 400_000)
     }
     fn exhaustive(_tier: Tier, sink: &mut dyn FnMut(Scenario)) -> Vec<String> {
         for p in fixed_profiles() {
